@@ -276,7 +276,7 @@ func hangGuard(d *Decl, args []string) {
 				hgMu.Unlock()
 				if c != nil && time.Since(since) > 30*time.Second {
 					dir := os.Getenv("VERIF_FAILDIR")
-					if dir != "" {
+					if dir != "" && c.D != nil {
 						os.MkdirAll(dir, 0o755)
 						cb, _ := json.Marshal(c)
 						b, _ := json.MarshalIndent(FailFile{Property: "C04", Message: "HANG: ParseArgs did not return within 30s", Case: cb}, "", " ")
@@ -297,4 +297,11 @@ func hangDone() {
 	hgMu.Lock()
 	hgCase = nil
 	hgMu.Unlock()
+}
+
+// guardCall protects any other call into the library (INI, help, completion):
+// if it does not return within 30 s the process exits with code 4.
+func guardCall(what string) func() {
+	hangGuard(nil, []string{what})
+	return hangDone
 }
